@@ -71,7 +71,12 @@ def spec_oracle(cfg, r):
             if cfg["tune"]:
                 # a tuned run: the step size of this proposal is the one the sampler recorded for it (times the per-dimension part)
                 st = float(hist_s[k]) * (numpy.array(cfg["stepvec"]).reshape(-1, 1) if cfg["stepmode"] == "vector" else 1.0)
-            if not same_vec(common.col(cur + st * 1.0 * z), s["proposed"]):
+            want_p = numpy.asarray(cur + st * 1.0 * z, dtype=float).flatten()
+            got_p = numpy.asarray(s["proposed"], dtype=float).flatten()
+            # the statement is about real numbers: equal up to a few units in the last place, however the product is associated
+            # (bit-exactness is the business of the co-execution with the model)
+            okp = want_p.shape == got_p.shape and all(same_float(a, b) or abs(a - b) <= 1e-12 * max(1.0, abs(a), abs(b)) for a, b in zip(want_p, got_p))
+            if not okp:
                 out.append(("rwmh-proposal", f"transition {k}: proposal is not current + stepsize * z"))
     if r.acc != acc:
         out.append(("counter", f"accepted_proposals={r.acc} but {acc} accepting transitions"))
